@@ -709,6 +709,34 @@ theorem same_localSound (n : Nat) (b : BSpec Rat) (h : ∀ w, b.localized w none
   · intro wa wb s t _
     exact soundAt_of_same b _ none s t (h _)
 
+/-- region specifications whose `localized` returns either the specification itself or `None`
+    (EnforcePatternOccurence: itself when the window meets its location, `None` otherwise) -/
+theorem sameOrNone_localSound (n : Nat) (b : BSpec Rat) (l : Loc) (hb : regionOf b = some l) (hl : l.Nonempty)
+    (hl0 : 0 ≤ l.start) (hst : l.strand = 1 ∨ l.strand = -1 ∨ l.strand = 0)
+    (hsize : ∀ p l', b = .avoidPattern p l' → 1 ≤ p.size) (hwin : ∀ mi ma k l', b = .gc mi ma (some k) l' → 1 ≤ k)
+    (h : ∀ w, b.localized w none = .same ∨ b.localized w none = .none) :
+    C02.LocalSound n evB lzB iniB b := by
+  apply localSound_of_soundAt
+  · intro w; rcases h w with h1 | h1 <;> rw [h1] <;> simp
+  · intro wa wb s t _
+    rcases h ⟨wa, wb, 0⟩ with h1 | h1
+    · exact soundAt_of_same b _ none s t h1
+    · by_cases hw : wa < wb
+      · exact soundAt_of_none b l ⟨wa, wb, 0⟩ none s t hb hl hl0 (by simp only [Loc.Nonempty]; omega) (by simp) hst hsize hwin h1
+      · intro hp hag _
+        have hag' : AgreeOutside wa wb s t := hag
+        have : s = t := List.ext_getElem? (fun i => hag'.2 i (by omega))
+        rw [← this]; exact hp
+
+/-- EnforcePatternOccurence satisfies the hypothesis of `C02.optimize_preserves_feasible` -/
+theorem patternOccurence_localSound (n : Nat) (pat : Pattern) (occ : Int) (l : Loc) (hl : l.Nonempty) (hl0 : 0 ≤ l.start)
+    (hst : l.strand = 1 ∨ l.strand = -1 ∨ l.strand = 0) :
+    C02.LocalSound n evB lzB iniB (.patternOccurence pat occ l) := by
+  apply sameOrNone_localSound n _ l rfl hl hl0 hst (by intro p l' h; cases h) (by intro mi ma k l' h; cases h)
+  intro w
+  simp only [localized, Option.isSome_none, Bool.false_eq_true, if_false]
+  cases l.overlap w <;> simp
+
 example (n : Nat) (choices : List Seq) (l : Loc) : C02.LocalSound n evB lzB iniB (.enforceChoice choices l) :=
   same_localSound n _ (fun _ => rfl)
 
@@ -1331,6 +1359,8 @@ inductive Proven (n : Nat) : BSpec Rat → Prop where
   | gcWindowed (mini maxi : Rat) (w : Nat) (hw1 : 1 ≤ w) (a b : Nat) (st : Int) (hst : st ≠ -1) (hab : a ≤ b) (hb : b ≤ n) :
       Proven n (.gc mini maxi (some w) ⟨a, b, st⟩)
   | avoidPattern (q : Seq) (hq : q ≠ []) (a b : Nat) (hab : a ≤ b) (hb : b ≤ n) : Proven n (.avoidPattern (.dna q) ⟨a, b, 1⟩)
+  | patternOccurence (pat : Pattern) (occ : Int) (l : Loc) (hl : l.Nonempty) (hl0 : 0 ≤ l.start)
+      (hst : l.strand = 1 ∨ l.strand = -1 ∨ l.strand = 0) : Proven n (.patternOccurence pat occ l)
   | returnsSelf (b : BSpec Rat) (h : ∀ w, b.localized w none = .same) : Proven n b
 
 theorem proven_localSound (n : Nat) (b : BSpec Rat) (h : Proven n b) : C02.LocalSound n evB lzB iniB b := by
@@ -1341,6 +1371,7 @@ theorem proven_localSound (n : Nat) (b : BSpec Rat) (h : Proven n b) : C02.Local
   | translation tbl tb ht tr a m st hst hb => exact translation_localSound n tbl tb ht tr a m st hst hb
   | gcWindowed mini maxi w hw1 a b st hst hab hb => exact gc_localSound n mini maxi w hw1 a b st hst hab hb
   | avoidPattern q hq a b hab hb => exact avoidPattern_localSound n q hq a b hab hb
+  | patternOccurence pat occ l hl hl0 hst => exact patternOccurence_localSound n pat occ l hl hl0 hst
   | returnsSelf b h => exact same_localSound n b h
 
 /-- **C02, closed for the built-in model**: a problem whose (evaluated) constraints are AvoidChanges /
